@@ -31,3 +31,16 @@ Theorem C06_signature_flips_on_any_exchange : forall p x m y q, NoDup (p ++ x ::
   parity (p ++ y :: m ++ x :: q) = negb (parity (p ++ x :: m ++ y :: q)).
 Proof. exact parity_any_swap_nodup. Qed.
 Print Assumptions C06_signature_flips_on_any_exchange.
+From PyQMC Require Import C06.Exchanges.
+From Coq Require Import Permutation.
+(* however a relabelling is produced from a duplicate-free labelling by exchanging pairs of positions, its signature is the starting
+   signature times (-1)^(number of exchanges) — the sign C06_exchange_flips_determinant gives the determinant; the result is again
+   duplicate-free and a permutation of the start *)
+Theorem C06_signature_is_parity_of_number_of_exchanges : forall sw l, NoDup l -> Forall (valid_swap (length l)) sw ->
+  parity (apply_swaps sw l) = xorb (Nat.odd (length sw)) (parity l) /\ NoDup (apply_swaps sw l) /\ Permutation l (apply_swaps sw l).
+Proof. exact parity_of_exchanges. Qed.
+Print Assumptions C06_signature_is_parity_of_number_of_exchanges.
+Theorem C06_signature_from_identity_is_parity_of_number_of_exchanges : forall n sw, Forall (valid_swap n) sw ->
+  parity (apply_swaps sw (seq 0 n)) = Nat.odd (length sw).
+Proof. exact parity_of_exchanges_from_identity. Qed.
+Print Assumptions C06_signature_from_identity_is_parity_of_number_of_exchanges.
